@@ -1390,6 +1390,21 @@ func main() {
 		enumerate(n)
 		return
 	}
+	if len(os.Args) >= 2 && os.Args[1] == "grouped" {
+		r := gen.FromEnv(2022)
+		for i := 0; i < n; i++ {
+			in := genCase(r)
+			if i%3 == 0 { // more rows per key group: groups that span several segments of 8 rows
+				for len(in.Rows) < 40 {
+					in.Rows = append(in.Rows, in.Rows[r.Intn(len(in.Rows))])
+				}
+			}
+			in.Tag = "grouped"
+			in.TimeCond = false
+			gen.Emit(runGroupedCase(i, in))
+		}
+		return
+	}
 	if len(os.Args) >= 2 && os.Args[1] == "multi" {
 		r := gen.FromEnv(2021)
 		for i := 0; i < n; i++ {
